@@ -59,7 +59,7 @@ def group_runs(g, tier):
             W('alt(zr/zs,phys)', 'random', names='dotted', walks=8 if q else 300, length=40),
             W('alt(/,mem)', 'random', walks=10 if q else 300, length=40),
             W('alt(zr/zs/zt,mem)', 'random', names='prefix', walks=10 if q else 300, length=40),
-            W('alt(zr,phys)', 'edges', frac=0.03 if q else 1.0, ops='copy_file,move_file,copy_dir,move_dir'),
+            W('alt(zr,phys)', 'edges', frac=0.03 if q else 1.0, names='prefix', ops='copy_file,move_file,copy_dir,move_dir'), W('alt(zr,phys)', 'edges', frac=0.02 if q else 1.0, names='prefix2', ops='copy_file,move_file,copy_dir,move_dir'),
             W('alt(zr/zs,mem)', 'edges', lts='chain', frac=0.15 if q else 1.0), W('alt(zr,phys)', 'random', lts='chain', walks=5 if q else 200, length=40),
             W('alt(zr,mem)', 'random', lts='wide', walks=6 if q else 300, length=40),
             W('alt(zr,mem)', 'random', names='prefix2', walks=8 if q else 300, length=40), W('alt(zr/zs,mem)', 'random', names='rnd', walks=8 if q else 300, length=40),
@@ -476,7 +476,7 @@ PROPS = {
     'C11': dict(groups=['xfer', 'tree', 'alt', 'ovl']),
     'C14': dict(groups=['handles']),
     'C04': dict(groups=['handles', 'tree', 'ovl']),
-    'C10': dict(groups=['ovl_cycles', 'ovl']),
+    'C10': dict(groups=['ovl_cycles', 'ovl', 'faults']),
 }
 
 
